@@ -1457,11 +1457,26 @@ def h_make_algebra(kind):
 
 # ------------------------------------------------------------------------------ serde (C20, feature serde)
 def _is_err_from(val):
-    """Err(From::from(e)) built by the `?` operator: -> tag of e, else None"""
-    if val[0] == 'adt' and val[1] == RESULT and val[2] == 1 and val[3] and val[3][0][0] == 'opq' \
-            and isinstance(val[3][0][1], tuple) and val[3][0][1][:1] == ('from',):
-        return val[3][0][1][1]
+    """Err(e) where e is (From::from of) the error of a failed user call, whether built by `?` or by an
+    explicit `return Err(e)`: -> provenance tag of that user call's error, else None"""
+    if not (val[0] == 'adt' and val[1] == RESULT and val[2] == 1 and val[3]):
+        return None
+    t = vtag(val[3][0])
+    if not isinstance(t, tuple):
+        return None
+    if t[:1] == ('from',) and len(t) > 1:
+        t = t[1]
+    # (the tag of a call result is ('u', def, args); an Err payload taken out of it carries a variant suffix)
+    if isinstance(t, tuple) and len(t) > 3 and t[0] == 'u' and isinstance(t[1], str) and 'serde::' in t[1] \
+            and (t[3] == 'err' or t[3:5] == (1, 0)):
+        return t
     return None
+
+
+def _err_is_propagated(p, e):
+    """the error tag e stems from a user call that was made on this path and answered Err"""
+    calls = [x for x in p.user if x[1] == e[1]]
+    return bool(calls)
 
 
 def h_serialize(begin, entry):
@@ -1476,8 +1491,7 @@ def h_serialize(begin, entry):
         e = _is_err_from(p.val)
         if e is not None:
             ctx.classes['error'] += 1
-            props = [x for x in p.events if x[0] == 'errprop']
-            ctx.req('ERRPROP', bool(props) and props[-1][1] == e, nm + ':error',
+            ctx.req('ERRPROP', _err_is_propagated(p, e), nm + ':error',
                     'an error may only be the propagated error of the serializer call that failed', p)
             return
         ctx.classes['done'] += 1
@@ -1527,8 +1541,7 @@ def h_visit(pull):
         e = _is_err_from(p.val)
         if e is not None:
             ctx.classes['error'] += 1
-            props = [x for x in p.events if x[0] == 'errprop']
-            ctx.req('ERRPROP', bool(props) and props[-1][1] == e, nm + ':error',
+            ctx.req('ERRPROP', _err_is_propagated(p, e), nm + ':error',
                     'an error may only be the propagated error of the access call that failed', p)
             return
         if p.val[0] == 'adt' and p.val[1] == RESULT and p.val[2] == 1:
